@@ -15,6 +15,8 @@ behaviour of the two builds.
 Only to *classify* a difference the reference semantics is consulted:
 `why=dyn-oob-garbage` — both builds returned normally and agree on every payload the semantics prescribes before an
 out-of-bounds dynamic index (where it prescribes a revert); they differ only in the payload read out of bounds.
+`why=release-wrong-aggregate-param` — kinds `prog-aggsel`/`prog-f4` only: the debug build is the prescribed run, the
+release build returned as well with payloads of the same sizes but different contents (finding F4).
 `why=dead-trap-eliminated` — each build behaves like a run of the semantics in which some trapping instructions
 whose results are unused were deleted (`SwaySem.runSkip`), but not the same ones.
 -/
@@ -32,10 +34,12 @@ def explainedBy (p : Prog) (k : Nat) (o : Obs) : Bool :=
       (!o.reverted && decide (o.logs.take l.length = l) && o.logs.length = l.length + 1)
   | _ => false
 
-def classify (_kind : String) (rest : List String) (d r : Obs) : String :=
+def classify (kind : String) (rest : List String) (d r : Obs) : String :=
   match parseProg rest with
   | none => "differ"
   | some p =>
+    if (kind = "prog-aggsel" || kind = "prog-f4") && explainedBy p 0 d && !d.reverted && !r.reverted &&
+       decide (d.logs.map List.length = r.logs.map List.length) then "release-wrong-aggregate-param" else
     if explainedBy p 0 d && explainedBy p 0 r then
       (match run p FUEL with | .oob _ => "dyn-oob-garbage" | _ => "differ")
     else if (List.range 9).any (explainedBy p · d) && (List.range 9).any (explainedBy p · r) then "dead-trap-eliminated"
@@ -66,9 +70,10 @@ def answer (line : String) : String :=
   | [c, i] =>
     let itoks := tokens i
     match tokenize c with
-    | "prog" :: rest => answerProg "prog" rest itoks
-    | "prog-oob" :: rest => answerProg "prog-oob" rest itoks
-    | "e2e" :: _ => answerE2e itoks
+    | kind :: rest =>
+      if kind.startsWith "prog" then answerProg kind rest itoks
+      else if kind = "e2e" then answerE2e itoks
+      else "bad-case agree=0 prop=1 why=bad-case"
     | _ => "bad-case agree=0 prop=1 why=bad-case"
   | _ => "bad-line agree=0 prop=1 why=bad-line"
 
